@@ -24,6 +24,11 @@ MInit == l = 1 /\ MarkInit
 Obs(e) == [kind |-> e.kind, ids |-> e.ids, M |-> e.M, mr |-> e.mr, bodies |-> e.bodies, recon |-> e.recon,
            rd |-> e.rd, notes |-> e.notes, outcome |-> e.outcome, respok |-> e.respok]
 
+\* "instead of hanging", in time: the SDK's back-off is capped at 30 s plus as much jitter per attempt, so a
+\* call that returns at all returns within 60 virtual seconds per reconnect attempt it made (plus one)
+Attempts(e) == LET n[i \in 0..Len(e.recon)] == IF i = 0 THEN 0 ELSE n[i - 1] + Len(e.recon[i].outs) IN n[Len(e.recon)]
+Prompt(e) == (e.kind = "post" /\ e.outcome # "hang") => (e.ret >= 0 /\ e.ret <= 60000000 * (Attempts(e) + 1))
+
 \* ---- function level: scanEvents over a body cut after e.off bytes
 \* every yielded event is one of the body's events, whole, in order; every event that was
 \* transmitted completely is yielded
@@ -63,7 +68,7 @@ MNext == /\ l <= NLines /\ l' = l + 1
               /\ Check(l, "NoTruncatedSurfaced", SC!NoTruncatedSurfaced(o))
               /\ Check(l, "ResumeCursor", SC!ResumeCursor(o))
               /\ Check(l, "RealResponseWithinBudget", SC!RealResponseWithinBudget(o))
-              /\ Check(l, "CleanFailure", SC!CleanFailure(o))
+              /\ Check(l, "CleanFailure", SC!CleanFailure(o) /\ Prompt(e))
               /\ Check(l, "drift", Strict(e))
 MSpec == MInit /\ [][MNext]_l
 MMark == MarkAt(l)
